@@ -301,3 +301,30 @@ def same_text_twice(mi: int, ui: int, other_cursor: bool) -> bool:
     post: _
     """
     return done(fast.native(_same_text_twice, fast.pick(mi, len(MODS)), fast.pick(ui, len(USES)), bool(fast.pick(other_cursor, 2))))
+
+
+# ------------------------------------------------------------------ independence of what happened before (shared harness)
+import obligations.shared_independence as _indep  # noqa: E402
+
+_IND_PRIORS = (9, 11)
+
+
+@ob(
+    "C15.unrelated_variables_do_not_matter",
+    encodes=["fakesnow.cursor.FakeSnowflakeCursor.execute/_transform/_execute/description/fetch*", "fakesnow.conn / fakesnow.variables / fakesnow.transforms (any state kept between statements)"],
+    bounds="prior activity: SET of an unrelated variable on this connection, or activity incl. SET of the subject's variable name on ANOTHER connection; then one of " + str(len(_indep.SUBJECTS)) + " statements (queries, DML, DDL with metadata, COMMENT, "
+    "DESCRIBE, SHOW, USE, SET, MERGE, seeded RANDOM, BEGIN, a nop_regexes match, two failing statements, TRUNCATE) on the same or another cursor, tuple or "
+    "dict: SQL reaching the engine, rows, rowcount, description names, error, sqlstate, session context and the statement's own effect on catalog, "
+    "metadata and variables equal those on a fresh identical session",
+    timeout=(300, 600),
+    stubs=["K1/K2/K6 vf.duckstub.Engine"],
+    shards=(11, 11),
+)
+def independence(si: int, pk: int, as_dict: bool, same_cursor: bool) -> bool:
+    """
+    pre: 0 <= si < len(_indep.SUBJECTS) and 0 <= pk < len(_IND_PRIORS) and (SHARD < 0 or si % 11 == SHARD)
+    post: _
+    """
+    from vf import fast as _f
+
+    return done(_f.native(_indep.independent, _f.pick(si, len(_indep.SUBJECTS)), _IND_PRIORS[_f.pick(pk, len(_IND_PRIORS))], bool(_f.pick(as_dict, 2)), bool(_f.pick(same_cursor, 2))))
